@@ -212,7 +212,7 @@ class Gen:
                     if not (a[0] == 'write' and b[0] == 'write'):
                         return [a, b]
             if kind < 0.9 and side == 'c' and len(sim.cch) < self.maxchan:
-                return [self.new_open(), [r.choice(['conn_abort', 'conn_close']), 'c']]
+                return [self.new_open(), ['conn_abort', 'c']]
             lc = [c for _, c in self.local_choices(side) if c[0] in ('close', 'abort', 'eof')]
             if lc and sim.pending(other):
                 return [r.choice(lc)] + [['deliver', other]] * r.randint(1, 2)
@@ -254,6 +254,11 @@ async def gen_scenario(rng, length, window, hw):
             await sim.do(op)
             g.note(op)
             ops.append(op)
+            if op[0] == 'conn_close' and rng.random() < 0.7:
+                # what TCP does: everything written before the close, DISCONNECT last, reaches the peer before the EOF
+                d = ['deliver_all', op[1]]
+                await sim.do(d)
+                ops.append(d)
         await sim.do(S)
         ops.append(S)
     return sim, g, ops
@@ -308,7 +313,7 @@ async def handshake_oracle(sim):
             continue
         for side in 'cs':
             ch, se, rec = sim._chan(side, cidx)
-            f = asyncio.ensure_future(ch.wait_closed())
+            f = simmod._spawn(ch.wait_closed())
             await memwire.settle(4)
             if not f.done():
                 f.cancel()
@@ -360,7 +365,9 @@ def fixed_scenarios():
         'abort_conn_confirmation_in_flight': [o(), S, dc, dc, S, ds, ['conn_abort', 'c'], ds, S],
         'close_conn_confirmation_in_flight': [o(), S, dc, dc, S, ds, ['conn_close', 'c'], ds, S],
         'disconnect_with_open_channels': up + [o(), S, ['wait_closed', 'c', 0], ['read', 'c', 0], ['conn_wait', 'c'], S,
-                                               ['conn_close', 's'], S, ds, ds, S],
+                                               ['conn_close', 's'], ['deliver_all', 's'], S],
+        'disconnect_by_client': up + [['wait_closed', 's', 0], ['read', 's', 0], ['conn_wait', 's'], S,
+                                      ['conn_close', 'c'], ['deliver_all', 'c'], S],
         'global_request_then_cut': up + [['global'], S, dc, dc, S],
         'eof_autoclose': [o(kc=False, ks=False), S, dc, dc, S, ds, ds, S, dc, dc, S, ds, ds, S, ['eof', 'c', 0], S, dc, dc, S,
                           ds, ds, S, ['close', 'c', 0], S, dc, dc, S, ds, ds, S],
@@ -378,7 +385,7 @@ async def connect_cut_sweep(ctx, report):
     import asyncssh
     k = 0
     done_all = False
-    while not done_all and k < 200:
+    while not done_all and k < 200 and getattr(report, 'budget', None) is not None and report.budget.hangs < MAX_HANGS:
         loop = asyncio.get_running_loop()
         tun = memwire.MemTunnel(loop)
         wires = []
@@ -401,8 +408,14 @@ async def connect_cut_sweep(ctx, report):
                 return False
         before = set(asyncio.all_tasks())
         acc = await asyncssh.listen('mem', 22, tunnel=tun, server_factory=Srv, server_host_keys=[sshutil.host_key()])
-        fut = asyncio.ensure_future(asyncssh.connect('mem', 22, tunnel=tun, known_hosts=None, username='u',
+        fut = simmod._spawn(asyncssh.connect('mem', 22, tunnel=tun, known_hosts=None, username='u',
                                                      client_keys=None, config=None, client_factory=Cli))
+        for _ in range(5000):            # set-up only (connect() resolves its options in an executor thread)
+            if wires:
+                break
+            await asyncio.sleep(0.001)
+        if not wires:
+            raise RuntimeError('connect() never reached the tunnel')
         await memwire.settle(6)
         n = 0
         w = wires[0] if wires else None
@@ -482,24 +495,24 @@ async def sftp_once(k, tmpdir):
                 if not (wire.pending('c') or wire.pending('s')):
                     return
     futs = {}
-    futs['start_sftp_client'] = asyncio.ensure_future(conn.start_sftp_client())
+    futs['start_sftp_client'] = simmod._spawn(conn.start_sftp_client())
     await memwire.settle(8)
     await pump(lambda: futs['start_sftp_client'].done())
     f0 = futs['start_sftp_client']
     sftp = f0.result() if f0.done() and not f0.cancelled() and f0.exception() is None else None
     if sftp is not None and n[0] < k:
-        futs['stat'] = asyncio.ensure_future(sftp.stat('.'))
-        futs['listdir'] = asyncio.ensure_future(sftp.listdir('.'))
-        futs['open+read'] = asyncio.ensure_future(_open_read(sftp))
-        futs['realpath'] = asyncio.ensure_future(sftp.realpath('.'))
+        futs['stat'] = simmod._spawn(sftp.stat('.'))
+        futs['listdir'] = simmod._spawn(sftp.listdir('.'))
+        futs['open+read'] = simmod._spawn(_open_read(sftp))
+        futs['realpath'] = simmod._spawn(sftp.realpath('.'))
         await memwire.settle(8)
         await pump(lambda: all(f.done() for f in futs.values()))
     reached_end = all(f.done() for f in futs.values()) and n[0] < k
     wire.cut_link()
     await memwire.settle(3 * simmod.SETTLE_TURNS)
     if sftp is not None:
-        futs['sftp.wait_closed'] = asyncio.ensure_future(sftp.wait_closed())
-        futs['late stat'] = asyncio.ensure_future(sftp.stat('.'))
+        futs['sftp.wait_closed'] = simmod._spawn(sftp.wait_closed())
+        futs['late stat'] = simmod._spawn(sftp.stat('.'))
         await memwire.settle(simmod.SETTLE_TURNS)
     probs = []
     for name, f in futs.items():
@@ -535,7 +548,7 @@ async def sftp_cut_sweep(ctx, report, step):
         with open(os.path.join(d, 'f.txt'), 'wb') as f:
             f.write(b'hello' * 50)
         k = 0
-        while k < 600:
+        while k < 600 and report.budget.hangs < MAX_HANGS:
             probs, end = await sftp_once(k, d)
             ctx.count('sftp.cut_positions', group='oracle')
             ctx.note_case(('sftp', k), nontrivial=True)
@@ -550,6 +563,24 @@ async def sftp_cut_sweep(ctx, report, step):
 
 
 # ------------------------------------------------------------------------------------------------
+
+class InlineExecutor(__import__('concurrent.futures').futures.ThreadPoolExecutor):
+    """loop.run_in_executor() work (asyncssh reloads its config in an executor during connect() and after
+    authentication) runs at once in the loop thread: no thread timing decides an outcome"""
+
+    def submit(self, fn, *a, **k):
+        import concurrent.futures
+        f = concurrent.futures.Future()
+        try:
+            f.set_result(fn(*a, **k))
+        except BaseException as e:          # noqa
+            f.set_exception(e)
+        return f
+
+
+def install_executor():
+    asyncio.get_running_loop().set_default_executor(InlineExecutor(max_workers=1))
+
 
 class Budget:
     def __init__(self):
@@ -570,6 +601,7 @@ def make_report(budget):
         rp['problem'] = kind
         ctx.count('problem.' + kind, group='oracle')
         ctx.failing_input(f'C09 {kind}: {what}', rp)
+    report.budget = budget
     return report
 
 
@@ -605,6 +637,7 @@ async def explore(ctx, name, ops, window, hw, cases, report, budget, corr=True):
 
 
 async def main_async(ctx):
+    install_executor()
     budget = Budget()
     report = make_report(budget)
     cases = []
@@ -689,6 +722,7 @@ def replay(rp):
     kind = rp.get('kind')
 
     async def go():
+        install_executor()
         if kind == 'seq':
             sim, probs = await run_ops(rp['ops'], rp.get('window', 256), rp.get('hw', 32), flush=rp.get('flush', False))
             return probs
@@ -735,4 +769,5 @@ async def connect_cut_sweep_replay(k, out):
     def report(ctx, prob, rp):
         if rp.get('k') == k:
             out.append(prob)
+    report.budget = Budget()
     await connect_cut_sweep(Ctx0(), report)
